@@ -5,6 +5,15 @@ import sys, json, io, contextlib, traceback, gc
 def run(c):
     out = io.StringIO(); res = {"out": "", "err": ""}
     g = {"__name__": "__main__"}
+    d = None; before = set(sys.modules)
+    if c.get("files"):
+        import tempfile, os
+        sys.dont_write_bytecode = True
+        d = tempfile.mkdtemp(prefix="verif-mods-")
+        for name, text in c["files"].items():
+            open(os.path.join(d, name), "w").write(text)
+        sys.path.insert(0, d)
+        import importlib; importlib.invalidate_caches()
     try:
         code = compile(c["src"], "<case>", c.get("mode") or "exec")
         with contextlib.redirect_stdout(out), contextlib.redirect_stderr(out):
@@ -18,6 +27,11 @@ def run(c):
             tb = tb.tb_next
         res["tb"] = lines
     res["out"] = out.getvalue()
+    if d:
+        import shutil
+        sys.path.remove(d); shutil.rmtree(d, ignore_errors=True)
+        for k in list(sys.modules):
+            if k not in before: del sys.modules[k]
     # finalise leftover generators now (their finally blocks may print), not during the next case
     with contextlib.redirect_stdout(io.StringIO()):
         g.clear(); gc.collect()
